@@ -78,6 +78,51 @@ def run(run):
         c07.weak_is_weak(run, f)
 
 
+PURE_STD_NAMES = {"is_closed", "strong_count", "weak_count", "same_channel", "capacity", "max_capacity", "is_some", "is_none", "is_ok", "is_err",
+                  "deref", "as_ref", "borrow", "eq", "ne", "lt", "le", "gt", "ge", "cmp", "partial_cmp", "len", "is_empty"}
+_pure_cache = {}
+
+
+def pure_observer(f, d, depth=0):
+    """A crate function that only *reads*: a plain (non-async) fn whose parameters are shared references / Copy scalars,
+    that writes through no pointer and whose calls are read-only std accessors or other such functions. Calling it an
+    extra time cannot change what any other call returns, so it does not count as "doing something else" in a forwarder."""
+    k = (f.path, d)
+    if k in _pure_cache:
+        return _pure_cache[k]
+    _pure_cache[k] = False          # cycles: not pure
+    fn = f.fns.get(d)
+    body = f.body(d)
+    ok = fn is not None and body is not None and not fn.get("async") and body.def_kind in ("Fn", "AssocFn") and depth < 4
+    if ok:
+        for t in fn["inputs"]:
+            ty = f.ty(t)
+            if ty.k == "ref" and "&mut" in ty.s[:5]:
+                ok = False
+            if ty.k in ("rawptr",):
+                ok = False
+    if ok:
+        for blk in body.blocks:
+            for st in blk.stmts:
+                if st["k"] == "assign" and any(e == "*" for e in st["place"]["p"]):
+                    ok = False
+                if st["k"] == "assign" and (("ref" in st["rv"] and st["rv"].get("mut")) or "rawptr" in st["rv"]):
+                    ok = False
+            t = blk.term
+            if t["k"] == "call" and not blk.cleanup and blk.idx in cfg_of(body).live:
+                fn2 = t.get("fn") or {}
+                c = fn2.get("def") or ""
+                if fn2.get("krate") == f.crate or c in f.fns:
+                    if not pure_observer(f, (fn2.get("resolved") or {}).get("def") or c, depth + 1):
+                        ok = False
+                elif fn2.get("name") not in PURE_STD_NAMES:
+                    ok = False
+            elif t["k"] in ("yield", "inline_asm"):
+                ok = False
+    _pure_cache[k] = ok
+    return ok
+
+
 def body_calls(f, body):
     out = []
     for blk in live_calls(body):
@@ -124,7 +169,7 @@ def trait_method(run, f, d, fn, trait, self_ty):
         okargs = len(args) == nparams and all(strip_refs(a) == ("param", i + 1) for i, a in enumerate(args))
         run.require(okargs, "O16.1", "args:%s" % key, "%s passes (%s) to %s instead of its own parameters in order" % (key, ", ".join(show(a) for a in args), K),
                     "arguments are the method's parameters, in order (%d)" % nparams, loc=loc)
-        extra = only_calls({K}, WRAP_CALLS)
+        extra = [x for x in only_calls({K}, WRAP_CALLS) if not (x and x.startswith(prefix) and pure_observer(f, x))]     # other read-only accessors of the same handle are harmless
         run.require(not extra, "O16.1", "no-extra-calls:%s" % key, "%s also calls %s" % (key, extra), "no other call", loc=loc)
         run.sample({"rule": "O16.1", "method": key, "forwards_to": K, "args": [show(a) for a in args]}) if m in ("tell_with_timeout", "kill") and run.cur_config == "default" else None
         return
